@@ -681,7 +681,13 @@ func ConnectionEnd(d *fw.Driver, res *fw.Result, seed int64, thorough bool) erro
 	// the connection loop itself is inside the write of a reverse request (to a peer that is alive but not reading)
 	// when the server shuts the connection down
 	base += 50
-	return rawEnd(res, seed, "reverse-call-write-server-cancel", base)
+	if err := rawEnd(res, seed, "reverse-call-write-server-cancel", base); err != nil {
+		return err
+	}
+	// a peer that sends an empty and a blank text message (its idea of a keepalive) and later closes: the end of the
+	// connection must still be noticed (the reader keeps reading after a message it has nothing to do with)
+	base += 50
+	return rawEnd(res, seed, "empty-messages-then-fin", base)
 }
 
 // rawEnd: connection ends seen from a peer that is not this library's client.
@@ -780,6 +786,15 @@ func rawEnd(res *fw.Result, seed int64, mode string, base int) error {
 			if tc != nil {
 				tc.CloseWrite()
 			}
+		}
+	case "empty-messages-then-fin":
+		conn.WriteMessage(websocket.TextMessage, []byte(""))
+		conn.WriteMessage(websocket.TextMessage, []byte("\n"))
+		time.Sleep(100 * time.Millisecond)
+		if tc != nil {
+			tc.CloseWrite()
+		} else {
+			conn.Close()
 		}
 	case "partial-frame-server-cancel":
 		w, werr := conn.NextWriter(websocket.TextMessage)
